@@ -111,6 +111,12 @@ package core
 //@      (len(state.Include) == 0 || anyGroup(target.Labels, target.Test != nil, state.Include)) && \
 //@      !anyGroup(target.Labels, target.Test != nil, state.Exclude))
 
+// Used by the incrementality decisions (C01, C03).
+//@ assume func PathExists
+//@   pure
+//@ assume func (BuildState).ShouldRebuild
+//@   pure
+
 // Used by the `//dir/...` expansion (C22): whether a base name is a configured BUILD file name.
 //@ assume func (Configuration).IsABuildFile
 //@   pure
